@@ -64,7 +64,7 @@ Theorem C07_every_offending_path_reported : forall (L : hashlib) decompress pgp 
   exists ed, get_file_entry_dict L decompress pgp w l path None true = Ok (l', ed) /\
     let c := mk_vctx (l_top l') (l_dev l') pol lm in
     (forall dir dd n e, In (dir, dd) ed -> In (n, e) dd -> presented L w c path (pjoin dir n) (Some e) log) /\
-    (forall dp rel, reach w ed (pjoin rootdir path) path dp rel -> files_presented L w c ed dp rel log).
+    (forall dp rel, reach w ed (walk_top path) path dp rel -> files_presented L w c ed dp rel log).
 Proof. exact directory_verification_complete. Qed.
 Print Assumptions C07_every_offending_path_reported.
 
